@@ -9,6 +9,8 @@ pub mod fixedkit;
 pub mod keytab;
 pub mod oracle;
 pub mod out;
+pub mod phonjudge;
+pub mod phonkit;
 pub mod pool;
 pub mod prop;
 
